@@ -71,7 +71,17 @@ MUTANTS = [
     ("dual1_edge_list", "bempp_cl/api/space/scalar_dual_spaces.py", "enumerate([[1, 5], [13, 17], [7, 11]])", "enumerate([[1, 5], [7, 11], [13, 17]])", 0, ["C10"]),
     ("bary_connectivity", "bempp_cl/api/grid/grid.py", "        new_elements[1, 6 * index + 2] = local_vertex_ids[2]", "        new_elements[1, 6 * index + 2] = local_vertex_ids[1]", 0, ["C10", "C11"]),
     ("refine_orientation", "bempp_cl/api/grid/grid.py", "new_elements[:, 4 * index + 3] = [vertex01, vertex12, vertex20]", "new_elements[:, 4 * index + 3] = [vertex01, vertex20, vertex12]", 0, ["C11", "C04"]),
+    ("refine_midpoint_endpoints", "bempp_cl/api/grid/grid.py", "            self.vertices[:, self.edges[0, :]] + self.vertices[:, self.edges[1, :]]\n", "            self.vertices[:, self.edges[0, :]] + self.vertices[:, self.edges[0, :]]\n", 0, ["C11"]),
     ("union_even_permutation", "bempp_cl/api/grid/grid.py", "current_elements = grid.elements[[0, 2, 1], :]", "current_elements = grid.elements[[1, 2, 0], :]", 0, ["C11"]),
+    ("union_offset_advanced_early", "bempp_cl/api/grid/grid.py", "        elements[:, element_offset : element_offset + nelements] = current_elements + vertex_offset\n        all_domain_indices[element_offset : element_offset + nelements] = domain_indices[index]\n        vertex_offset += nvertices\n", "        vertex_offset += nvertices\n        elements[:, element_offset : element_offset + nelements] = current_elements + vertex_offset\n        all_domain_indices[element_offset : element_offset + nelements] = domain_indices[index]\n", 0, ["C11"]),
+    ("union_wrong_shift", "bempp_cl/api/grid/grid.py", "= current_elements + vertex_offset", "= current_elements + element_offset", 0, ["C11"]),
+    ("union_domain_block", "bempp_cl/api/grid/grid.py", "all_domain_indices[element_offset : element_offset + nelements] = domain_indices[index]", "all_domain_indices[vertex_offset : vertex_offset + nelements] = domain_indices[index]", 0, ["C11"]),
+    ("adj_layout_pair_swapped", "bempp_cl/api/grid/grid.py", "        adjacency[0, index] = elem0\n        adjacency[1, index] = elem1", "        adjacency[0, index] = elem1\n        adjacency[1, index] = elem0", 0, ["C11"]),
+    ("vertex_adj_swap_ij", "bempp_cl/api/grid/grid.py", "adjacency[:, index] = (test_index, trial_index, i, j)", "adjacency[:, index] = (test_index, trial_index, j, i)", 0, ["C11"]),
+    ("two_common_same_pair", "bempp_cl/api/grid/grid.py", "offset = index_pairs[0, 0] + 1  # Next", "offset = index_pairs[0, 0]  # Next", 0, ["C11"]),
+    ("boundary_two_neighbours", "bempp_cl/api/grid/grid.py", "arr1 = edge_to_edge.diagonal() == 1", "arr1 = edge_to_edge.diagonal() == 2", 0, ["C11"]),
+    ("boundary_one_vertex", "bempp_cl/api/grid/grid.py", "arr0[self.edges[:, boundary_edge_index]] = True", "arr0[self.edges[0, boundary_edge_index]] = True", 0, ["C11"]),
+    ("element_filter_same_array", "bempp_cl/api/grid/grid.py", "return (elements1[filtered_indices], elements2[filtered_indices])", "return (elements1[filtered_indices], elements1[filtered_indices])", 0, ["C11"]),
     ("edges_id_constant", "bempp_cl/api/grid/grid.py", "EDGES_ID = 2", "EDGES_ID = 3", 0, ["C11"]),
     # ---- OpenCL
     ("cl_laplace_dl_vec8", KH, "    *result = M_INV_4PI * (diff[0] * trialNormal[0] + diff[1] * trialNormal[1]", "    *result = M_INV_4PI * (diff[0] * trialNormal[1] + diff[1] * trialNormal[1]", 2, ["C20"]),
@@ -121,6 +131,13 @@ EQUIVALENTS = [
     ("eq_duffy_factor_order", "bempp_cl/api/integration/duffy_galerkin.py", "points_test[1, index] = xsi * (1.0 - eta1 + eta12)", "points_test[1, index] = (1.0 + eta12 - eta1) * xsi", 0, ["C12", "C01"]),
     ("eq_cl_commute", KH, "    factor1[0] = M_INV_4PI * cos(kernel_parameters[0] * dist) / (dist * dist * dist);\n    factor1[1] = M_INV_4PI * sin(kernel_parameters[0] * dist) / (dist * dist * dist);\n\n    factor2[0] = -M_ONE;\n    factor2[1] = kernel_parameters[0] * dist;\n\n    if (kernel_parameters[1] != M_ZERO) {\n        factor1[0] *= exp(-kernel_parameters[1] * dist);\n        factor1[1] *= exp(-kernel_parameters[1] * dist);\n\n        factor2[0] += -kernel_parameters[1] * dist;\n    }\n\n    product[0]", "    factor1[0] = cos(dist * kernel_parameters[0]) * M_INV_4PI / (dist * dist * dist);\n    factor1[1] = M_INV_4PI * sin(kernel_parameters[0] * dist) / (dist * dist * dist);\n\n    factor2[0] = -M_ONE;\n    factor2[1] = kernel_parameters[0] * dist;\n\n    if (kernel_parameters[1] != M_ZERO) {\n        factor1[0] *= exp(-kernel_parameters[1] * dist);\n        factor1[1] *= exp(-kernel_parameters[1] * dist);\n\n        factor2[0] += -kernel_parameters[1] * dist;\n    }\n\n    product[0]", 0, ["C20"]),
     ("eq_p1_table_float_form", "bempp_cl/api/space/scalar_spaces.py", "                [1.0, 1 / 2, 1 / 3],\n                [0.0, 1 / 3, 1 / 2],", "                [1, 0.5, 1.0 / 3],\n                [0, 1.0 / 3, 0.5],", 0, ["C10"]),
+    ("eq_refine_rename", "bempp_cl/api/grid/grid.py", "            vertex01 = self.element_edges[0, index] + self.number_of_vertices\n            vertex20 = self.element_edges[1, index] + self.number_of_vertices\n            vertex12 = self.element_edges[2, index] + self.number_of_vertices\n\n            new_elements[:, 4 * index] = [vertex0, vertex01, vertex20]\n\n            new_elements[:, 4 * index + 1] = [vertex01, vertex1, vertex12]\n\n            new_elements[:, 4 * index + 2] = [vertex12, vertex2, vertex20]\n\n            new_elements[:, 4 * index + 3] = [vertex01, vertex12, vertex20]\n",
+     "            nv = self.number_of_vertices\n            m_a = nv + self.element_edges[0, index]\n            m_b = nv + self.element_edges[1, index]\n            m_c = nv + self.element_edges[2, index]\n            new_elements[:, 3 + 4 * index] = [m_a, m_c, m_b]\n            new_elements[:, 4 * index + 2] = [m_c, vertex2, m_b]\n            new_elements[:, 1 + index * 4] = [m_a, vertex1, m_c]\n            new_elements[:, index * 4] = [vertex0, m_a, m_b]\n", 0, ["C11", "C04"]),
+    ("eq_union_rename", "bempp_cl/api/grid/grid.py", "        vertices[:, vertex_offset : vertex_offset + nvertices] = grid.vertices\n        if swapped_normals[index]:\n            current_elements = grid.elements[[0, 2, 1], :]\n        else:\n            current_elements = grid.elements\n        elements[:, element_offset : element_offset + nelements] = current_elements + vertex_offset\n        all_domain_indices[element_offset : element_offset + nelements] = domain_indices[index]\n        vertex_offset += nvertices\n        element_offset += nelements\n",
+     "        if swapped_normals[index]:\n            cur = grid.elements[[1, 0, 2], :]\n        else:\n            cur = grid.elements\n        stop = nelements + element_offset\n        all_domain_indices[element_offset:stop] = domain_indices[index]\n        elements[:, element_offset:stop] = vertex_offset + cur\n        vertices[:, vertex_offset : nvertices + vertex_offset] = grid.vertices\n        element_offset += grid.number_of_elements\n        vertex_offset += grid.vertices.shape[1]\n", 0, ["C11"]),
+    ("eq_boundary_loop_spelling", "bempp_cl/api/grid/grid.py", "        for boundary_edge_index in _np.flatnonzero(arr1):\n            arr0[self.edges[:, boundary_edge_index]] = True", "        for e in _np.argwhere(arr1).flatten():\n            arr0[self.edges[:, e]] = True", 0, ["C11"]),
+    ("eq_filter_where", "bempp_cl/api/grid/grid.py", "filtered_indices = _np.argwhere(nvertices == filter_type).flatten()", "filtered_indices = _np.where(filter_type == nvertices)[0]", 0, ["C11"]),
+    ("eq_edge_adj_rename", "bempp_cl/api/grid/grid.py", "        index_pairs = _get_shared_edge_information_for_two_elements(elements, elem0, elem1)\n        adjacency[0, index] = elem0\n        adjacency[1, index] = elem1\n        adjacency[2:, index] = index_pairs.flatten()", "        pairs = _get_shared_edge_information_for_two_elements(elements, elem0, elem1)\n        adjacency[2:, index] = pairs.flatten()\n        adjacency[1, index] = elem1\n        adjacency[0, index] = elem0", 0, ["C11", "C01", "C03"]),
     ("eq_export_rename", "bempp_cl/api/grid/io.py", "            data = _transform_array(grid_function.evaluate_on_vertices(), transformation).T\n            if _np.iscomplexobj(data):\n                point_data = {\"real\": _np.real(data), \"imag\": _np.imag(data)}", "            vals = grid_function.evaluate_on_vertices()\n            data = _transform_array(vals, transformation).T\n            if _np.iscomplexobj(data):\n                point_data = {\"imag\": _np.imag(data), \"real\": _np.real(data)}", 0, ["C19"]),
     ("eq_solver_temp", "bempp_cl/api/linalg/direct_solvers.py", "        vec = b.projections(A.dual_to_range)\n", "        dual = A.dual_to_range\n        vec = b.projections(dual)\n", 0, []),
     ("eq_sparse_support_commute", "bempp_cl/core/sparse_assembler.py", "support = domain.support * dual_to_range.support", "support = dual_to_range.support * domain.support", 0, ["C13", "C04"]),
